@@ -66,6 +66,12 @@ Definition k_zone_ne_col (c : column) (o : cmpop) (q : value) : bool :=
 Definition k_range_round_col (c : column) (lo hi : option value) (li hi_i : bool) : bool :=
   (match lo with Some l => negb li && k_zone_round_col c OpGt l | None => false end)
   || (match hi with Some h => negb hi_i && k_zone_round_col c OpLt h | None => false end).
+(** the two classes on a property storage (node or edge properties) *)
+Definition ps_zone_class (p : pstore) (key : Z) (o : cmpop) (q : value) : bool :=
+  match zget p key with Some c => k_zone_round_col c o q || k_zone_ne_col c o q | None => false end.
+Definition ps_range_class (p : pstore) (key : Z) (lo hi : option value) (li hi_i : bool) : bool :=
+  match zget p key with Some c => k_range_round_col c lo hi li hi_i | None => false end.
+
 (** C14-K7: a label was added/removed while the statistics were considered fresh; the next
     refresh does not recompute *)
 Definition op_label_unflagged (s : state) (o : op) : bool :=
@@ -75,6 +81,17 @@ Definition op_label_unflagged (s : state) (o : op) : bool :=
   | _ => false
   end.
 Definition hist_label_unflagged : state -> list op -> bool := hist_any op_label_unflagged.
+
+(** * well-formed property values: a Float64 is a 64-bit pattern (the model keeps bit patterns as
+    unbounded integers); needed only where two floats with the same exact value must be the same
+    or the two zeros *)
+Definition value_wf (v : value) : Prop := match v with VFloat b => in_u64 b | _ => True end.
+Definition op_vals_wf (o : op) : Prop :=
+  match o with
+  | SetNodeProp _ _ v | SetEdgeProp _ _ v => value_wf v
+  | _ => True
+  end.
+Definition hist_vals_wf (ops : list op) : Prop := Forall op_vals_wf ops.
 
 (** * well-formed histories: the ids an operation mentions are u64 values and the history is
     shorter than 2^64 operations (so that the id counters never wrap) *)
